@@ -106,6 +106,15 @@ def programs(t):
     return f, u
 
 
+def programs_mixed(t, side):
+    """half-folded rendering of (leaf op leaf): the operand on `side` is a variable, the other one stays a literal - the compiler cannot
+    evaluate the operator, but it still has to give the literal the kind (and the instruction) it would have as a folded operand"""
+    _, op, a, b = t
+    la, lb = a[1], b[1]
+    e = f"(v0 {op} {lit(lb)})" if side == 0 else f"({lit(la)} {op} v0)"
+    return decl("v0", la if side == 0 else lb) + f"\nprint {e}\nprint typeof {e}\n"
+
+
 def same_lines(a, b):
     if len(a) != len(b):
         return False
@@ -284,7 +293,15 @@ class C06(Check):
                         yield ("seq", tuple(trees[r:] + trees[:r]))
                     yield ("seq", tuple(reversed(trees)))
 
-        ls = [("L0-depth1", d1()), ("Ls-sequences-of-same-digit-expressions-of-different-kinds-in-one-compilation", sequences()), ("Lo-optional-trees-or-get-nil", optionals()), ("Lf-literal-spellings", forms()), ("Lm-most-negative-values-and-negative-pairs", extremes())]
+        def mixed():
+            lv = LEAVES if tier == "thorough" else [l for i, l in enumerate(LEAVES) if i % 2 == 0 or l[0] == "intlit-wide"]
+            wide = [("form", "intlit-wide", v, sp) for v, sp in ((2147483648, "0x80000000"), (4294967295, "0xFFFF_FFFF"))] + [("intlit-wide", 2 ** 40), ("intlit-wide", 2 ** 127 - 1)]
+            for op in OPS:
+                for a, b in itertools.product(lv + wide, lv + wide):
+                    for side in (0, 1):
+                        yield ("mix", side, ("bin", op, ("L", a), ("L", b)))
+
+        ls = [("L0-depth1", d1()), ("Lx-half-folded-one-operand-a-variable-the-other-a-literal", mixed()), ("Ls-sequences-of-same-digit-expressions-of-different-kinds-in-one-compilation", sequences()), ("Lo-optional-trees-or-get-nil", optionals()), ("Lf-literal-spellings", forms()), ("Lm-most-negative-values-and-negative-pairs", extremes())]
         if tier == "quick":
             def d2q():
                 for i, t in enumerate(d2()):
@@ -299,6 +316,8 @@ class C06(Check):
     def describe(self, case):
         if case[0] == "seq":
             return {"sequence": [render(t, None) for t in case[1]]}
+        if case[0] == "mix":
+            return {"half-folded": render(case[2], None), "variable operand": "left" if case[1] == 0 else "right"}
         return {"folded": render(case, None)}
 
     def run_seq(self, case):
@@ -328,9 +347,33 @@ class C06(Check):
                          "detail": detail})
         return {"outcome": "seq-ok" + ("-DIFF" if viol else ""), "viol": viol, "nontrivial": True, "tags": ["seq"]}
 
+    def run_mixed(self, case):
+        _, side, t = case
+        m = programs_mixed(t, side)
+        _, u = programs(t)
+        env = {"MSCRIPT_VERIF_TYPED_PRINT": "1"}
+        rm = driver.run_ms(m, env=env)
+        ru = driver.run_ms(u, env=env)
+        detail = {"files": {"half-folded.ms": m, "unfolded.ms": u}, "half-folded": rm.brief(), "unfolded": ru.brief()}
+        viol = []
+        rej_m, rej_u = driver.compile_rejected(rm), driver.compile_rejected(ru)
+        expr = render(t, None)
+        sig = {"kind": None, "op": t[1], "left": t[2][1][0] if t[2][1][0] != "form" else "form-" + t[2][1][1], "right": t[3][1][0] if t[3][1][0] != "form" else "form-" + t[3][1][1], "variable": side}
+        if rej_u:
+            return {"outcome": "mix-static-reject", "nontrivial": False, "tags": ["mix"]}
+        if rej_m:
+            viol.append({"sig": dict(sig, kind="half-folded-rejected"), "what": f"{expr} with one operand in a variable is rejected by the compiler; over two variables it is accepted: {(rm.out + rm.err)[-200:]}", "detail": detail})
+        elif (rm.exit == 0) != (ru.exit == 0):
+            viol.append({"sig": dict(sig, kind="half-folded-outcome-differs"), "what": f"{expr} with one operand in a variable ends with exit {rm.exit} ({driver.classify_failure(rm) if rm.exit else rm.lines()}), over two variables with exit {ru.exit} ({driver.classify_failure(ru) if ru.exit else ru.lines()})", "detail": detail})
+        elif rm.exit == 0 and not same_lines(rm.lines(), ru.lines()):
+            viol.append({"sig": dict(sig, kind="half-folded-value-differs"), "what": f"{expr} with one operand in a variable prints {rm.lines()}, over two variables {ru.lines()}", "detail": detail})
+        return {"outcome": "mix-" + ("ok" if ru.exit == 0 else "fail") + ("-DIFF" if viol else ""), "viol": viol, "nontrivial": True, "tags": ["mix"]}
+
     def run_case(self, case):
         if case[0] == "seq":
             return self.run_seq(case)
+        if case[0] == "mix":
+            return self.run_mixed(case)
         f, u = programs(case)
         env = {"MSCRIPT_VERIF_TYPED_PRINT": "1"}
         rf = driver.run_ms(f, env=env)
